@@ -36,6 +36,7 @@ def _strategy():
         "disp": st.lists(st.sampled_from([0.0, 1e-6, 1e-5, 1e-4]), min_size=1, max_size=2),
         "lat": st.lists(st.sampled_from(simbus.LATENCY_GRID[1:]), min_size=1, max_size=3),
         "pre_timer": st.sampled_from([None, None, 0.003, 0.05, 1.0]),
+        "sas": st.sampled_from([[0x30, 0x40, 0x41], [0x30, 0x40, 0x41], [0x00, 0x40, 0x41], [0x30, 0x00, 0xFD], [0xFD, 0x01, 0x00], [0x80, 0xF8, 0x7F]]),
     })
 
 
@@ -75,6 +76,7 @@ class C11:
         def V(kind, msg, site=""):
             viol.append({"kind": kind, "msg": msg, "bucket": "C11|%s|%s" % (kind, site)})
 
+        SA_S, DA1, DA2 = p.get("sas", [0x30, 0x40, 0x41])
         L = max(p["eps"]) + max(p["disp"]) + 2e-6
         w = W.World(latency={"R1": p["lat"], "R2": p["lat"][::-1]}, wake_eps=p["eps"], dispatch=p["disp"])
         subs = []     # (t, fmt, da, cpgn, payload, limit, result)
